@@ -39,9 +39,10 @@ def programs(tier):
     a1 = families.ids("A1", "quick")
     extra = families.ids("A5", "quick")[:12] + families.ids("A2", "quick")[:12]
     special = [i for i in reg if any(k in i.lower() for k in ("opset", "float16", "bfloat16", "bf16", "f16", "swish", "silu", "rms", "attention", "gelu", "cumprod", "bitcast"))]
+    gated = families.ids("A10", tier)
     if tier == "quick":
-        return sorted(set(reg[::17] + special[::5])) + a1[::9] + extra[::2]
-    return sorted(set(reg[::2] + special)) + a1 + extra
+        return sorted(set(reg[::17] + special[::5])) + a1[::9] + extra[::2] + gated
+    return sorted(set(reg[::2] + special)) + a1 + extra + gated
 
 
 def sweep_programs(tier):
